@@ -402,3 +402,31 @@ def tip_programs(dev):
         ]
         progs.append(h)
     return progs
+
+
+def kwarg_programs(dev):
+    """Keyword pass-through of aspirate / dispense / transfer and the text arguments of distribute,
+    valid and invalid, one field at a time (C09)."""
+    progs = []
+    P, T = 0, 1
+    good = {"lc": "Water_FD_AspZmax-1", "rackid": "0123456789", "racktype": "96 Well Microplate", "tube": "tube-7", "frt": "forced"}
+    bads = {"lc": "a;b", "rackid": "x" * 33, "racktype": "ty;pe", "tube": "t;1", "frt": "y" * 40}
+    cases = [("all-good", dict(good))] + [(f"bad-{k}", {k: v}) for k, v in bads.items()] + [(f"good-{k}", {k: v}) for k, v in good.items()]
+    cases.append(("limit-32", {"rackid": "i" * 32, "racktype": "t" * 32, "frt": "f" * 32, "lc": "l" * 40, "tube": "u" * 40}))
+    for name, kw in cases:
+        h = _hdr(f"kwargs/{name}", dev, base_labware(), flags={"comp": False, "norm": False})
+        h["ops"] = [
+            {"op": "transfer", "src": T, "sw": L([(0, 0), (1, 0)]), "dst": P, "dw": L([(0, 1), (1, 1)]), "vols": L([4, 11]), "label": "kw", "wash": 1, "kw": kw},
+            {"op": "aspirate", "lw": P, "wells": L([(0, 0), (0, 1)]), "vols": L([1, 2]), "label": "a", "kw": kw},
+            {"op": "dispense", "lw": P, "wells": L([(2, 2)]), "vols": S(3), "label": None, "kw": kw},
+        ]
+        progs.append(h)
+    for name, fld, val in [("lc", "lc", "a;b"), ("sid", "sid", "x" * 33), ("stype", "stype", "s;t"), ("did", "did", ";"), ("dtype", "dtype", "d" * 33),
+                           ("ok", "lc", "Water")]:
+        h = _hdr(f"kwargs/dist-{name}", dev, base_labware(), flags={"comp": False, "norm": False})
+        op = {"op": "distribute", "src": T, "col": 0, "dst": P, "dw": L([(0, 1), (1, 1)]), "vol": 2, "label": "d"}
+        op[fld] = val
+        h["ops"] = [op, {"op": "distribute", "src": T, "col": 1, "dst": P, "dw": L([(0, 2)]), "vol": 1, "label": "two\nlines",
+                         "sid": "SRC", "stype": "Trough 100ml", "did": "DST", "dtype": "96 Well", "lc": "W", "md": 6, "reuse": 3}]
+        progs.append(h)
+    return progs
